@@ -126,6 +126,9 @@ structure ConvTable where
   /-- `FromSteelVal for (A, B)` (conversions.rs) rejects a list that does not have exactly two elements
   (`if l.len() != 2 { return Err(..) }`); `false`: it converts the first two and ignores the rest -/
   pairExact : Bool := true
+  /-- `FromSteelVal for f32` reports a finite number beyond `f32::MAX` as an error; `false` (as found,
+  `try_from_impl!(NumV => f64, f32)`): the unchecked cast `x as f32`, which turns it into an infinity -/
+  f32Checked : Bool := false
 deriving DecidableEq, Repr
 
 def ConvTable.into (tb : ConvTable) (t : IntTy) : Option IntoPath := tb.intoL.lookup t
@@ -207,10 +210,57 @@ def ConvTable.rtCompatible (tb : ConvTable) (t : IntTy) : Bool :=
   | some p, some q => p.losslessFor t && q != .asCastInt && (!p.mayBig t || q == .tryIntoIntOrBig)
   | _, _ => false
 
+/-! ## `f32` on bit patterns
+
+`IntoSteelVal for f32` is `NumV(self as f64)` (`from_f64!`), `FromSteelVal for f32` is `x as f32`
+(`try_from_impl!(NumV => f64, f32)`).  Both casts are modelled exactly on the IEEE-754 bit patterns
+(the widening is exact and quiets a signalling NaN; the narrowing rounds to nearest, ties to even,
+overflows to an infinity and keeps the top 22 payload bits of a NaN). -/
+
+/-- `f32 as f64` -/
+def widen32 (b : Nat) : Nat :=
+  let s := b / 2147483648 % 2
+  let e := b / 8388608 % 256
+  let m := b % 8388608
+  s * 9223372036854775808 +
+  (if e = 255 then 2047 * 4503599627370496 + (if m = 0 then 0 else ((m * 536870912) ||| 2251799813685248))
+   else if e = 0 then
+     (if m = 0 then 0 else
+       let k := Nat.log2 m
+       (k + 874) * 4503599627370496 + (m - 2 ^ k) * 2 ^ (52 - k))
+   else (e + 896) * 4503599627370496 + m * 536870912)
+
+/-- `sig / 2^sh` rounded to nearest, ties to even -/
+def rne (sig sh : Nat) : Nat :=
+  if sh = 0 then sig
+  else
+    let q := sig / 2 ^ sh
+    let r := sig % 2 ^ sh
+    let half := 2 ^ (sh - 1)
+    if r > half ∨ (r = half ∧ q % 2 = 1) then q + 1 else q
+
+/-- `f64 as f32` -/
+def narrow64 (b : Nat) : Nat :=
+  let s := b / 9223372036854775808 % 2
+  let e := b / 4503599627370496 % 2048
+  let m := b % 4503599627370496
+  (s * 2147483648 +
+   (if e = 2047 then 2139095040 + (if m = 0 then 0 else ((m / 536870912) ||| 4194304))
+    else if e = 0 then 0
+    else
+      let sig := 4503599627370496 + m
+      if e < 897 then rne sig (926 - e)
+      else
+        let bits := (e - 896) * 8388608 + (rne sig 29 - 8388608)
+        if bits ≥ 2139095040 then 2139095040 else bits)) % 4294967296
+
+def finite64 (b : Nat) : Bool := b / 4503599627370496 % 2048 != 2047
+def inf32 (b : Nat) : Bool := b % 2147483648 == 2139095040
+
 /-! ## Host types -/
 
 inductive Ty where
-  | int (t : IntTy) | bool | char | string | unit | f64 | cust
+  | int (t : IntTy) | bool | char | string | unit | f64 | f32 | cust
   | opt (t : Ty) | vec (t : Ty) | pair (a b : Ty) | map (k v : Ty) | set (k : Ty) | res (t e : Ty)
 deriving DecidableEq, Repr, Inhabited
 
@@ -224,6 +274,7 @@ def Ty.Host : Ty → Type
   | .string => String
   | .unit => Unit
   | .f64 => {b : Nat // b < 18446744073709551616}
+  | .f32 => {b : Nat // b < 4294967296}
   | .cust => {x : Int // InRange .i64 x}
   | .opt t => Option t.Host
   | .vec t => List t.Host
@@ -268,6 +319,7 @@ def into_ (tb : ConvTable) : (t : Ty) → t.Host → Except Err SVal
   | .string, s => .ok (.str s)
   | .unit, _ => .ok .void
   | .f64, b => .ok (.num b.val)
+  | .f32, b => .ok (.num (widen32 b.val))
   | .cust, x => .ok (.custom "rec" x.val)
   | .opt _, none => .ok (.bool false)            -- `None` becomes `#f`
   | .opt t, some x => into_ tb t x               -- `Some(x)` becomes x itself
@@ -323,6 +375,12 @@ def from_ (tb : ConvTable) : (t : Ty) → SVal → Except Err t.Host
     match v with
     | .num b => if h : b < 18446744073709551616 then .ok ⟨b, h⟩ else .error .conversion
     | _ => .error .conversion
+  | .f32, v =>
+    match v with
+    | .num b =>
+      if tb.f32Checked && finite64 b && inf32 (narrow64 b) then .error .conversion
+      else .ok ⟨narrow64 b, Nat.mod_lt _ (by decide)⟩
+    | _ => .error .conversion
   | .cust, v =>
     match v with
     | .custom ty id =>
@@ -364,8 +422,10 @@ def from_ (tb : ConvTable) : (t : Ty) → SVal → Except Err t.Host
     | .errv w => (from_ tb e w).map .inr
     | _ => .error .conversion
 
-/-- no `Some(x)` inside the host value is converted to `#f` (the image of `None`) -/
+/-- no `Some(x)` inside the host value is converted to `#f` (the image of `None`), and every `f32` inside
+survives widening and narrowing (all but the signalling NaNs, which the widening quiets) -/
 def optOk (tb : ConvTable) : (t : Ty) → t.Host → Bool
+  | .f32, b => narrow64 (widen32 b.val) == b.val && !(tb.f32Checked && inf32 b.val)
   | .opt _, none => true
   | .opt t, some x =>
     optOk tb t x && (match into_ tb t x with | .ok v => !v.isFalse | .error _ => true)
@@ -444,6 +504,42 @@ def wrapper {α : Type} (tb : ConvTable) (s : Sig) (f : List HAny → α) (args 
       match convertParams tb args s.params s.idxs with
       | .error e => (.error e, [])
       | .ok cs => (.ok (f (r ++ cs)), [r ++ cs])
+
+/-- What a wrapper closure does before it converts anything: the arity check (`args.len() != n`), then the
+slice indexing `args[i]` for every index it reads, in order (`&args[i]` panics out of bounds). -/
+inductive Pre where
+  | arityErr | panic (i : Nat) | proceed
+deriving DecidableEq, Repr, Inhabited
+
+def wrapperPre (arity : Nat) (idxs : List Nat) (nargs : Nat) : Pre :=
+  if nargs ≠ arity then .arityErr
+  else match idxs.find? (fun i => decide (nargs ≤ i)) with
+    | some i => .panic i
+    | none => .proceed
+
+/-- the arity check and the indices read by the `BuiltInModule` wrapper of `Fn(&mut SELF, &[INNER], F)` as found
+(`args.len() != 2`, then `args[0]`, `args[1]`, `args[2]`) -/
+def asFoundModuleSlice : Nat × List Nat := (2, [0, 1, 2])
+
+/-- the index list of the macro invocation that generates the wrapper of this receiver kind and arity -/
+def lookupIdx? (tab : List (Bool × Nat × List Nat)) (self : Bool) (arity : Nat) : Option (List Nat) :=
+  (tab.find? (fun e => e.1 == self && e.2.1 == arity)).map (fun e => e.2.2)
+
+/-- a wrapper closure reads exactly the arguments it checked for: every index below the arity, none beyond -/
+def wrapperOk (w : String × Nat × List Nat) : Bool :=
+  w.2.2.all (fun i => decide (i < w.2.1)) && (List.range w.2.1).all (fun i => w.2.2.contains i)
+
+/-- A struct registered the way `#[derive(Steel)] #[steel(constructors, getters)]` does (steel-derive
+`derive_steel_impl`): the constructor is the generated wrapper of the free function `|f1, .., fn| T { f1, .., fn }` over
+the field types (the struct IS its converted fields), the getter of field `j` is the `&SELF` wrapper of
+`|value| value.fj.clone().into_steelval()`. -/
+def structCtor (tb : ConvTable) (fields : List Ty) (idxs : List Nat) (args : List SVal) : Except Err (List HAny) :=
+  (wrapper tb { recv := .none, params := fields, idxs := idxs } (fun cs => cs) args).1
+
+def structGetter (tb : ConvTable) (s : List HAny) (j : Nat) : Except Err SVal :=
+  match s[j]? with
+  | some a => into_ tb a.1 a.2
+  | none => .error .generic
 
 /-- the index tables as found in `register_fn.rs` (16-parameter invocations read `args[14]` twice) -/
 def idxsAsFound (first n : Nat) : List Nat :=
@@ -746,5 +842,45 @@ def singleThreaded (ops : List Op) : Bool := ops.all (fun o => !o.isThread)
 
 def lrun (pol : Policy) (s : LState) (ops : List Op) : LState :=
   ops.foldl (fun s o => (lstep pol s o).1) s
+
+/-- Proposed repair of finding K20d: `Drop for BorrowedObject` leaves the parent's borrow flag alone while a
+reference derived from the dropped one is still alive (its own `child_borrow_flag` is set or its `borrow_count`
+is positive).  In the model the last drop of such a handle changes nothing: the borrow it holds on its parent is
+never released (the ancestors stay borrowed for the rest of the call) and the handle keeps counting as live for
+the ghost flags — which only makes `aliasViol` / `aliasDirect` fire MORE often. -/
+def lstepR (pol : Policy) (s : LState) (op : Op) : LState × LOut :=
+  match op with
+  | .drop i c =>
+    match s.handles[i]? with
+    | some h =>
+      if h.copies.contains c && (h.copies.erase c).isEmpty && (h.childFlag || decide (h.borrowCount > 0)) then (s, .unit)
+      else lstep pol s (.drop i c)
+    | none => lstep pol s (.drop i c)
+  | .lend k => lstep pol s (.lend k)
+  | .endCall => lstep pol s .endCall
+  | .copy i c => lstep pol s (.copy i c)
+  | .get i c => lstep pol s (.get i c)
+  | .getro i c => lstep pol s (.getro i c)
+  | .set i c v => lstep pol s (.set i c v)
+  | .derive i c k => lstep pol s (.derive i c k)
+  | .pinUse i c => lstep pol s (.pinUse i c)
+  | .unpinUse => lstep pol s .unpinUse
+
+def lrunR (pol : Policy) (s : LState) (ops : List Op) : LState :=
+  ops.foldl (fun s o => (lstepR pol s o).1) s
+
+/-- the operation is the end of a lending call while another thread is inside a host function on one of the
+objects that call lent -/
+def spanStep (s : LState) : Op → Bool
+  | .endCall =>
+    match s.frames with
+    | f :: _ => s.pins.any (fun p => p.root && p.call == f.id)
+    | [] => false
+  | _ => false
+
+/-- no end of call of the run happens under a host function still running on one of its objects -/
+def noSpan (pol : Policy) : LState → List Op → Bool
+  | _, [] => true
+  | s, o :: rest => !spanStep s o && noSpan pol (lstep pol s o).1 rest
 
 end SteelVerif.C20
